@@ -27,7 +27,7 @@ def _mk(ctx, backlog, d):
 
     async def hP(h, ev):
         try:
-            await h.sleep(d)
+            await h.sleep(d if not ctx.cfg.get('warm') else 5)
         finally:
             if ctx.cfg.get('slow_to_die'):
                 # cleanup that itself takes (a lot of) time when the handler is cancelled
